@@ -57,6 +57,8 @@ def _zero_mantissa(ctx, rep):
 
 
 def check(ctx, rep):
+    from . import c03 as _c03, _share as _sh
+    _sh.share(ctx, rep, _c03, ('normalise.bring-to-range',), 'a decimal literal is converted through from_int / from_decimal, which normalise the mantissa with _bring_to_range: an all-ones or a just-below-the-top-bit mantissa must come out unchanged')
     # plain decimal notation is used only while every digit before the point is significant: from 10**digits on (exponent >= the
     # number of digits the type holds) the value is shown in scientific notation, or a padded zero would stand for a lost digit
     ts = ctx.fn('pcbasic/basic/values/numbers.py:Float.to_str')
